@@ -1,4 +1,5 @@
 import OmbottModel.Model.Wsgi
+import OmbottModel.Model.WsgiSpec
 /-
 C09: one application serving a history of requests on one (reused) worker thread.
 
@@ -22,6 +23,9 @@ structure SharedErr where
 structure AppState where
   slots : Slots
   shared : List SharedErr
+  appTb : List (Nat × List Nat) := []
+    -- traceback chains of the application's own module-level `HTTPError` / `HTTPResponse` objects
+    -- (key of the object, requests whose frames it references)
   deriving Repr, DecidableEq
 
 def sharedInit : List SharedErr :=
@@ -37,7 +41,50 @@ reading the body in the handler raises (`none`: the body is fine / not read) -/
 structure HReq where
   req : Req
   bodyErr : Option String
+  ctxKeeps : Bool := false
+    -- the request error is raised while a built-in exception with a live traceback is being handled
+    -- (`except ValueError:` around `int()` / `json.loads`): the shared error's `__context__` then
+    -- references this request's frames until the next raise replaces it
+  singleton : Option Nat := none
+    -- `some k`: the object the handler returns / raises is the application's module-level object `k`
+    -- (the same Python object for every request)
+  ext : Option (List (Str × Str)) := none
+    -- `some sets`: the handler stores these extension attributes / items on `app.request`
+    -- (`request.user = v`, `request._token = v`, `request['app.key'] = v`; the login-then-anonymous
+    -- pattern) and answers with what it then reads back for all probe names
 deriving Inhabited
+
+/-- the names the probing handler reads: a public and an underscore-prefixed extension attribute
+and a plain environ item -/
+def probeNames : List String := ["user", "_token", "app.key"]
+
+def lookupLast (k : Str) : List (Str × Str) → Option Str
+  | [] => none
+  | (k', v) :: r =>
+    match lookupLast k r with
+    | some x => some x
+    | none => if k' == k then some v else none
+
+/-- what the probing handler answers: `name=value` or `name=-` (attribute / item absent) -/
+def renderExt (ext : List (Str × Str)) : Str :=
+  ";".toList.intercalate (probeNames.map fun n =>
+    n.toList ++ '=' :: ((lookupLast n.toList ext).getD "-".toList))
+
+/-- what `request` holds when the handler runs: `_handle` has re-initialised it with the new
+environ, then the handler's own assignments -/
+def extAtHandler (s : Slots) (r : Req) (sets : List (Str × Str)) : List (Str × Str) :=
+  (match (s.initRequest r).req with
+   | some q => q.ext
+   | none => []) ++ sets
+
+/-- the probing handler's outcome -/
+def withProbe (s : Slots) (hr : HReq) (req : Req) : Req :=
+  match hr.ext, req.route with
+  | some sets, .found h =>
+    (match h.res with
+     | .returns _ => { req with route := .found { h with res := .returns (.text (renderExt (extAtHandler s req sets))) } }
+     | _ => req)
+  | _, _ => req
 
 /-- the complete response as the server sees it -/
 structure Response where
@@ -56,6 +103,27 @@ def mapped (shared : List SharedErr) (cls : String) : Option SharedErr :=
 the shared object is reset and then grows by the frames of this request only -/
 def raiseShared (shared : List SharedErr) (e : SharedErr) (id : Nat) : List SharedErr :=
   shared.map fun x => if x.cls == e.cls then { x with tb := [id] } else x
+
+/-- `except HTTPResponse as resp: return resp.with_traceback(None)` in `_handle`: the raised
+response that reaches the clause loses its traceback -/
+def clearShared (shared : List SharedErr) (e : SharedErr) : List SharedErr :=
+  shared.map fun x => if x.cls == e.cls then { x with tb := [] } else x
+
+/-- does the response the handler raised reach the `except HTTPResponse` clause of `_handle`?
+(a failing after-hook replaces it while it propagates through the `finally`) -/
+def reachesExcept (app : App) : Bool := app.after.all fun h => !h.fails
+
+def tbOf (k : Nat) (l : List (Nat × List Nat)) : List Nat :=
+  ((l.find? (·.1 == k)).map (·.2)).getD []
+
+def setTb (k : Nat) (tb : List Nat) : List (Nat × List Nat) → List (Nat × List Nat)
+  | [] => [(k, tb)]
+  | (k', t) :: r => if k' == k then (k, tb) :: r else (k', t) :: setTb k tb r
+
+def raisesResp? (r : Req) : Bool :=
+  match r.route with
+  | .found h => (match h.res with | .raisesResp _ => true | _ => false)
+  | _ => false
 
 def bodyOf : List BodyItem → Bytes
   | [] => []
@@ -87,13 +155,31 @@ def handlerReached (res : Result) (r : Req) : Bool :=
 
 /-- one request served by the application in state `st` -/
 def serve (app : App) (st : AppState) (hr : HReq) : AppState × Response :=
-  let (req, raised) := resolve st.shared hr
+  let (req0, raised) := resolve st.shared hr
+  let req := withProbe st.slots hr req0
   let res := wsgi app st.slots req
   let shared' :=
     match raised with
-    | some e => if handlerReached res req then raiseShared st.shared e req.id else st.shared
+    | some e =>
+      if handlerReached res req then
+        (if reachesExcept app && !hr.ctxKeeps then clearShared st.shared e else raiseShared st.shared e req.id)
+      else st.shared
     | none => st.shared
-  ({ slots := res.slots, shared := shared' }, responseOf res)
+  -- `raise SINGLETON` in application code: nothing resets the traceback before the raise, so it
+  -- grows by this request's frames unless the object reaches the `except` clause of `_handle`
+  let appTb' :=
+    match hr.singleton with
+    | some k =>
+      if handlerReached res req && raisesResp? req then
+        (if reachesExcept app then setTb k [] st.appTb else setTb k (req.id :: tbOf k st.appTb) st.appTb)
+      else st.appTb
+    | none => st.appTb
+  -- the extension attributes stay in the environ the request object points at
+  let slots' :=
+    match hr.ext, res.slots.req with
+    | some sets, some q => if handlerReached res req then { res.slots with req := some { q with ext := sets } } else res.slots
+    | _, _ => res.slots
+  ({ slots := slots', shared := shared', appTb := appTb' }, responseOf res)
 
 def serve₁ (app : App) (st : AppState) (hr : HReq) : AppState := (serve app st hr).1
 
@@ -115,6 +201,6 @@ of the shared error objects -/
 def retained (st : AppState) : List Nat :=
   dedup ((match st.slots.req with
     | some q => [q.id]
-    | none => []) ++ st.shared.flatMap (·.tb))
+    | none => []) ++ st.shared.flatMap (·.tb) ++ st.appTb.flatMap (·.2))
 
 end Ombott.History
